@@ -431,3 +431,78 @@ def mc(ctx):
 
 
 RULES.append(mc)
+
+
+@rule("X9", doc="the cost the extractor reports can be recomputed from the term: cost_rec evaluates every child recursively, hands the node to the cost function with its children renumbered 0..n-1 in occurrence order and answers child i's cost for Id(i); AstSize adds the cost of every child to 1")
+def x9(ctx):
+    crate = ctx.lib()
+    bs = [b for b in crate.by_name.get("cost_rec", []) if b.kind != "Closure" and (b.file or "").endswith("extract/cost.rs")]
+    if len(bs) != 1:
+        raise mir.AnchorMissing("CostFunction::cost_rec")
+    b = bs[0]
+    # (a) children: map over expr.children of the recursive call, collected without a dropping adaptor
+    chains = C.adaptor_chains(b, "iter") or []
+    rec_ok = False
+    for sub in b.all_bodies():
+        for c in sub.calls:
+            if c.callee and c.callee.target == b.id and not sub.blocks[c.bb]["cleanup"]:
+                rec_ok = True
+    ctx.check(rec_ok, "cost-rec:recurses", "cost_rec evaluates the children with cost_rec", "cost_rec no longer recurses into the children", where_of(b))
+    coll = [c for c in b.calls if c.callee and c.callee.name == "collect" and not b.blocks[c.bb]["cleanup"]]
+    okc = any(role_mentions_field(b.role_of_operand(c.args[0]), "children") and not any(isinstance(x, tuple) and x[0] == "call" and x[1] in ("filter", "take", "skip", "step_by", "filter_map", "take_while", "skip_while", "rev") for x in role_walk(b.role_of_operand(c.args[0]))) for c in coll)
+    lp_children = [l for l in C.iterator_loops(b) if role_mentions_field(l[1], "children")]
+    ctx.check(okc or (bool(lp_children) and all(C.loop_exhaustive(b, l) for l in lp_children)), "cost-rec:all-children", "the cost of every child is computed, in order", "cost_rec does not compute the cost of every child of the term (a dropping / reordering adaptor, or a loop left early)", where_of(b))
+    # (b) renumbering: occurrence k becomes Id(k)
+    lps = [l for l in C.iterator_loops(b) if role_mentions_call(l[1], "applied_id_occurrences_mut")]
+    okr = False
+    for l in lps:
+        if not role_mentions_call(l[1], "enumerate") or not C.loop_exhaustive(b, l):
+            continue
+        for bi, si, s in b.statements():
+            if s["k"] == "assign" and s["lhs"]["p"] and s["lhs"]["p"][-1] == "*" and bi in b.reach(l[3], avoid=l[2]):
+                r = strip_role(b.role_of_rvalue(s["rv"]))
+                if isinstance(r, tuple) and r[0] == "call" and r[1] == "new" and r[3]:
+                    idr = strip_role(r[3][0])
+                    # Id(<enumerate index>) : component 0 of the loop element
+                    if isinstance(idr, tuple) and idr[0] == "agg" and str(idr[1]).endswith("Id::Id") and idr[2] and role_str(strip_role(idr[2][0])).endswith(".0") and b.must_pass(l[3], [l[0]], {bi}):
+                        okr = True
+    ctx.check(okr, "cost-rec:renumbered-by-position", "child occurrence k is renamed Id(k) for every k", "cost_rec does not renumber every child occurrence by its position: the cost closure then answers with another child's cost", where_of(b))
+    # (c) the closure handed to cost() indexes the child costs by the id's number
+    cs = [c for c in b.calls if c.callee and c.callee.name == "cost" and not b.blocks[c.bb]["cleanup"]]
+    okk = False
+    for c in cs:
+        for a in c.args:
+            cl = C._closure_of_role(crate, b.role_of_operand(a))
+            if hasattr(cl, "calls"):
+                r = strip_role(cl.role_of_local(0))
+                if isinstance(r, tuple) and r[0] == "call" and r[1] == "index" and role_mentions_call(r[3][0], "collect") and role_str(strip_role(r[3][1])).endswith(".0") and not any(isinstance(x, tuple) and x[0] == "bin" for x in role_walk(r[3][1])):
+                    okk = True
+    ctx.check(okk, "cost-rec:closure-indexes-by-id", "the cost closure answers child_costs[id.0]", "the cost closure of cost_rec does not answer child_costs[id.0]", where_of(b))
+    # (d) AstSize
+    az = [x for x in crate.by_name.get("cost", []) if x.kind != "Closure" and "AstSize" in (x.impl_self or "")]
+    for a_ in az:
+        lps = [l for l in C.iterator_loops(a_) if role_mentions_call(l[1], "applied_id_occurrences")]
+        adds = [c for c in a_.calls if c.callee and c.callee.name in ("saturating_add", "add", "checked_add", "wrapping_add") and not a_.blocks[c.bb]["cleanup"]]
+        binadds = [bi for bi, si, s in a_.statements() if s["k"] == "assign" and s["rv"]["k"] == "bin" and s["rv"]["op"].startswith("Add")]
+        ok = bool(lps) and all(C.loop_exhaustive(a_, l) for l in lps) and (bool(adds) or bool(binadds))
+        if ok:
+            l = lps[0]
+            sites = {c.bb for c in adds} | set(binadds)
+            ok = a_.must_pass(l[3], [l[0]], sites)
+        ret = a_.role_of_local(0)
+        one = any(isinstance(x, tuple) and x[0] == "const" and str(x[1]).startswith("1_") for x in role_walk(ret))
+        if not ok:
+            # fold form: occurrences.into_iter().fold(1, |s, x| s + costs(x.id))
+            r0 = strip_role(ret)
+            if isinstance(r0, tuple) and r0[0] == "call" and r0[1] == "fold" and len(r0[3]) == 3 and role_mentions_call(r0[3][0], "applied_id_occurrences") \
+                    and not any(isinstance(x, tuple) and x[0] == "call" and x[1] in ("filter", "take", "skip", "step_by", "filter_map", "take_while", "skip_while") for x in role_walk(r0[3][0])):
+                cl = C._closure_of_role(crate, r0[3][2])
+                if hasattr(cl, "calls"):
+                    addc = any(c.callee and c.callee.name in ("saturating_add", "add", "checked_add", "wrapping_add") for c in cl.calls) or any(s_["k"] == "assign" and s_["rv"]["k"] == "bin" and s_["rv"]["op"].startswith("Add") for _, _, s_ in cl.statements())
+                    cb = any(c.callee is None or (c.callee.name in ("call", "call_mut", "call_once")) for c in cl.calls)
+                    ok = addc and cb
+        ctx.check(ok and one, "ast-size", "AstSize = 1 + the cost of every child", "AstSize::cost no longer adds the cost of every child occurrence to 1 (a child skipped, or the node itself not counted)", where_of(a_))
+    ctx.floor("AstSize::cost", len(az), 1)
+
+
+RULES.append(x9)
